@@ -60,33 +60,36 @@ type node struct {
 }
 
 type gen struct {
-	leaves []string
-	memoR  map[[2]int][]node
-	memoS  map[[2]int][]node
+	leaves       []string
+	quants       []string
+	startAnchors []node
+	endAnchors   []node
+	memoR        map[int][]node
+	memoS        map[int][]node
 }
 
-var quants = []string{"", "*", "+", "?", "*?", "+?", "??"}
+var allQuants = []string{"", "*", "+", "?", "*?", "+?", "??"}
 
-// atoms of exactly n leaves with group nesting <= d
-func (g *gen) atoms(n, d int) []node {
+// Size of a pattern = number of leaves + groups + anchors.
+
+// atoms of exactly size n: a leaf (n==1) or a group around a regex of size n-1
+func (g *gen) atoms(n int) []node {
 	var out []node
 	if n == 1 {
 		for _, l := range g.leaves {
 			out = append(out, node{l, l})
 		}
-	}
-	if d > 0 {
-		for _, r := range g.regexes(n, d-1) {
+	} else {
+		for _, r := range g.regexes(n - 1) {
 			out = append(out, node{"(" + r.s + ")", "(" + r.g + ")"})
 		}
 	}
 	return out
 }
 
-// body: sequences of quantified atoms with exactly n leaves (n>=1)
-func (g *gen) body(n, d int) []node {
-	key := [2]int{n, d}
-	if r, ok := g.memoS[key]; ok {
+// body: sequences of quantified atoms of exactly size n (n>=1)
+func (g *gen) body(n int) []node {
+	if r, ok := g.memoS[n]; ok {
 		return r
 	}
 	var out []node
@@ -95,56 +98,52 @@ func (g *gen) body(n, d int) []node {
 		if first == n {
 			rest = []node{{"", ""}}
 		} else {
-			rest = g.body(n-first, d)
+			rest = g.body(n - first)
 		}
-		for _, a := range g.atoms(first, d) {
-			for _, q := range quants {
+		for _, a := range g.atoms(first) {
+			for _, q := range g.quants {
 				for _, r := range rest {
 					out = append(out, node{a.s + q + r.s, a.g + q + r.g})
 				}
 			}
 		}
 	}
-	g.memoS[key] = out
+	g.memoS[n] = out
 	return out
 }
 
-var startAnchors = []node{{"^", "^"}, {`\A`, `\A`}}
-var endAnchors = []node{{"$", "$"}, {`\Z`, `\z`}}
+var allStartAnchors = []node{{"^", "^"}, {`\A`, `\A`}}
+var allEndAnchors = []node{{"$", "$"}, {`\Z`, `\z`}}
 
-// seqs with exactly n leaves; an anchor counts as one leaf
-func (g *gen) seqs(n, d int) []node {
+// seqs of exactly size n: [start anchor] body [end anchor], or anchors only
+func (g *gen) seqs(n int) []node {
 	var out []node
-	// no anchors
-	out = append(out, g.body(n, d)...)
-	if n >= 1 {
-		// only anchors
-		if n == 1 {
-			out = append(out, startAnchors...)
-			out = append(out, endAnchors...)
-		}
-		if n == 2 {
-			for _, a := range startAnchors {
-				for _, e := range endAnchors {
-					out = append(out, node{a.s + e.s, a.g + e.g})
-				}
+	out = append(out, g.body(n)...)
+	if n == 1 {
+		out = append(out, g.startAnchors...)
+		out = append(out, g.endAnchors...)
+	}
+	if n == 2 {
+		for _, a := range g.startAnchors {
+			for _, e := range g.endAnchors {
+				out = append(out, node{a.s + e.s, a.g + e.g})
 			}
 		}
 	}
 	if n >= 2 {
-		for _, b := range g.body(n-1, d) {
-			for _, a := range startAnchors {
+		for _, b := range g.body(n - 1) {
+			for _, a := range g.startAnchors {
 				out = append(out, node{a.s + b.s, a.g + b.g})
 			}
-			for _, e := range endAnchors {
+			for _, e := range g.endAnchors {
 				out = append(out, node{b.s + e.s, b.g + e.g})
 			}
 		}
 	}
 	if n >= 3 {
-		for _, b := range g.body(n-2, d) {
-			for _, a := range startAnchors {
-				for _, e := range endAnchors {
+		for _, b := range g.body(n - 2) {
+			for _, a := range g.startAnchors {
+				for _, e := range g.endAnchors {
 					out = append(out, node{a.s + b.s + e.s, a.g + b.g + e.g})
 				}
 			}
@@ -153,27 +152,27 @@ func (g *gen) seqs(n, d int) []node {
 	return out
 }
 
-// regexes with exactly n leaves: seq ('|' seq)*
-func (g *gen) regexes(n, d int) []node {
-	key := [2]int{n, d}
-	if r, ok := g.memoR[key]; ok {
+// regexes of exactly size n: seq ('|' seq)*
+func (g *gen) regexes(n int) []node {
+	if r, ok := g.memoR[n]; ok {
 		return r
 	}
 	var out []node
-	out = append(out, g.seqs(n, d)...)
+	out = append(out, g.seqs(n)...)
 	for first := 1; first < n; first++ {
-		for _, a := range g.seqs(first, d) {
-			for _, r := range g.regexes(n-first, d) {
+		for _, a := range g.seqs(first) {
+			for _, r := range g.regexes(n - first) {
 				out = append(out, node{a.s + "|" + r.s, a.g + "|" + r.g})
 			}
 		}
 	}
-	g.memoR[key] = out
+	g.memoR[n] = out
 	return out
 }
 
-func newGen(leaves ...string) *gen {
-	return &gen{leaves: leaves, memoR: map[[2]int][]node{}, memoS: map[[2]int][]node{}}
+func newGen(leaves, quants []string) *gen {
+	return &gen{leaves: leaves, quants: quants, startAnchors: allStartAnchors, endAnchors: allEndAnchors,
+		memoR: map[int][]node{}, memoS: map[int][]node{}}
 }
 
 type work struct {
@@ -188,45 +187,77 @@ func ngroups(p string) int { return strings.Count(p, "(") - strings.Count(p, "(?
 
 func buildWork(c *lib.Ctx) []work {
 	var ws []work
-	// (A) structure family
-	g := newGen("a", "b", ".")
-	nA := lib.Pick(c, 3, 4)
+	seen := map[string]bool{}
+	add := func(w work) {
+		if ngroups(w.Sun) > 9 { // Suneido records \1..\9 only
+			return
+		}
+		if !seen[w.Sun+"\x00"+w.Alpha] {
+			seen[w.Sun+"\x00"+w.Alpha] = true
+			ws = append(ws, w)
+		}
+	}
 	lenA := lib.Pick(c, 4, 5)
-	for n := 1; n <= nA; n++ {
-		for _, r := range g.regexes(n, 2) {
-			if ngroups(r.s) > 9 {
-				continue // Suneido records \1..\9 only
-			}
-			ws = append(ws, work{"A", r.s, r.g, "ab1 ", lenA})
+	// (A) structure family
+	g3 := newGen([]string{"a", "b", "."}, allQuants)
+	g2 := newGen([]string{"a", "b"}, allQuants)
+	gr := newGen([]string{"a", "b"}, []string{"", "*", "??"})
+	for n := 1; n <= lib.Pick(c, 2, 3); n++ {
+		for _, r := range g3.regexes(n) {
+			add(work{"A", r.s, r.g, "ab1", lenA})
+		}
+	}
+	if c.Quick() {
+		for _, r := range g2.regexes(3) {
+			add(work{"A", r.s, r.g, "ab1", lenA})
+		}
+	} else {
+		for _, r := range gr.regexes(4) {
+			add(work{"A4", r.s, r.g, "ab1", lenA})
 		}
 	}
 	// (B) class family
 	classes := []string{"a", "b", ".", "[ab]", "[^a]", "[a-b]", "[^ab]", "[a-b1]", `[\da]`,
 		`\d`, `\w`, `\s`, `\D`, `\W`, `\S`}
-	var el []string
-	for _, a := range classes {
-		for _, q := range quants {
-			el = append(el, a+q)
+	elems := func(qs []string) []string {
+		var el []string
+		for _, a := range classes {
+			for _, q := range qs {
+				el = append(el, a+q)
+			}
+		}
+		return el
+	}
+	const alphaB = "abAB1 _-"
+	variants := func(b string, all bool) {
+		add(work{"B", b, b, alphaB, 3})
+		add(work{"Bi", "(?i)" + b, "(?i)" + b, alphaB, 3})
+		if all {
+			add(work{"B^", "^" + b + "$", "^" + b + "$", alphaB, 3})
+			add(work{"BA", `\A` + b + `\Z`, `\A` + b + `\z`, alphaB, 3})
 		}
 	}
-	var bodies []string
-	bodies = append(bodies, el...)
-	for _, x := range el {
-		for _, y := range el {
-			bodies = append(bodies, x+y)
-		}
+	for _, x := range elems(allQuants) {
+		variants(x, true)
 	}
-	for _, b := range bodies {
-		ws = append(ws, work{"B", b, b, "abAB1 _-", 3})
-		ws = append(ws, work{"Bi", "(?i)" + b, "(?i)" + b, "abAB1 _-", 3})
-		ws = append(ws, work{"B^", "^" + b + "$", "^" + b + "$", "abAB1 _-", 3})
-		ws = append(ws, work{"BA", `\A` + b + `\Z`, `\A` + b + `\z`, "abAB1 _-", 3})
+	pairEl := elems(lib.Pick(c, []string{"", "*", "+?"}, allQuants))
+	for _, x := range pairEl {
+		for _, y := range pairEl {
+			variants(x+y, !c.Quick())
+		}
 	}
 	// (C) structure family, ignore case
-	nC := lib.Pick(c, 2, 3)
-	for n := 1; n <= nC; n++ {
-		for _, r := range g.regexes(n, 2) {
-			ws = append(ws, work{"Ci", "(?i)" + r.s, "(?i)" + r.g, "aAb1", lenA})
+	if c.Quick() {
+		for n := 1; n <= 2; n++ {
+			for _, r := range g3.regexes(n) {
+				add(work{"Ci", "(?i)" + r.s, "(?i)" + r.g, "aAb1", 4})
+			}
+		}
+	} else {
+		for n := 1; n <= 3; n++ {
+			for _, r := range g2.regexes(n) {
+				add(work{"Ci", "(?i)" + r.s, "(?i)" + r.g, "aAb1", 4})
+			}
 		}
 	}
 	return ws
@@ -323,6 +354,21 @@ func compilePat(c *lib.Ctx, w work) *compiled {
 // goBody moves a leading (?i) inside the wrapper group: "((?i)R)" is valid Go
 func goBody(p string) string { return p }
 
+const classLastMatchPrefix = "lastmatch-start-after-pos"
+
+// failClass reports a classified failure. It returns true when the caller may
+// go on judging the same case (the class is a listed known finding, or it is
+// ignored for development through VERIF_DEV_IGNORE=class,class).
+func failClass(c *lib.Ctx, class string, cs any, format string, a ...any) bool {
+	for _, ig := range strings.Split(os.Getenv("VERIF_DEV_IGNORE"), ",") {
+		if ig == class {
+			c.Count("dev_ignored:"+class, 1)
+			return true
+		}
+	}
+	return c.Fail(class, cs, format, a...)
+}
+
 // checkOne judges one (pattern, subject); returns number of comparisons made.
 func checkOne(c *lib.Ctx, cp *compiled, s string) int {
 	w := cp.w
@@ -389,6 +435,19 @@ func checkOne(c *lib.Ctx, cp *compiled, s string) int {
 		}
 		ok := cp.pat.LastMatch(s, i, &cap)
 		evals++
+		if ok && int(cap[0]) > i {
+			// Precisely classified defect candidate: Pattern.match does not
+			// honour its `fixed` argument (it still skips forward to the
+			// literal prefix and still adds new start threads while older
+			// threads are alive), so LastMatch returns a match that STARTS
+			// AFTER the requested position i.
+			if !failClass(c, classLastMatchPrefix, failCase{"match", w.Sun, w.Go, s},
+				"pattern %q subject %q: LastMatch(s,%d,&cap) returned a match starting at %d > %d (reference: %v)",
+				w.Sun, s, i, cap[0], i, want) {
+				return evals
+			}
+			continue
+		}
 		if ok != (want != nil) {
 			fail(fmt.Sprintf("LastMatch(s,%d,&cap)", i), ok, want != nil)
 			return evals
